@@ -16,6 +16,7 @@ from ..monitor import bump, violation
 from ..workloads import specs as W
 
 PROP = "C17"
+ANCHORS = ['dep_logic.specifiers:parse_version_specifier', 'dep_logic.specifiers:from_specifierset', 'dep_logic.specifiers:_from_pkg_specifier', 'dep_logic.specifiers:_prefix_bounds']
 RULE = ("Grammar generator over the public (local-free) version syntax: epoch, 1-4 release segments, leading "
         "zeros, v prefix, every alternate pre/post/dev spelling and separator, case, whitespace; every operator "
         "(==, !=, <, <=, >, >=, ~=, ===-free), wildcards, comma sets of 1-3 clauses, || joins, <empty>; 30% near-miss "
